@@ -1210,6 +1210,166 @@ def gen_cmd(tier, rng):
         yield Case(cmd_line(stream, ws=ws, desc=d, pubok=rng.choice([1, 1, 1, 0]), playok=rng.choice([1, 1, 1, 0]), mask=rb(rng, 4) if ws else None), cls="cmd-random")
 
 
+# ---------------------------------------------------------------- the RTSP command layer of the client (ClientCommandSession under PullSession / PushSession)
+NUM_EXTREMES = [b"0", b"1", b"60", b"2147483647", b"2147483648", b"4294967296", b"9223372037", b"18446744073", b"9223372036854775807", b"9223372036854775808",
+                b"18446744073709551615", b"99999999999999999999", b"-1", b"-9223372036854775808", b"+5", b" 5", b"5 ", b"", b"abc", b"0x10", b"1e3", b"00000000000000000000060"]
+CLT_SDP = CMD_SDP
+CLT_PUBLIC = b"OPTIONS, DESCRIBE, SETUP, TEARDOWN, PLAY"
+
+
+def rsp(code=b"200", hdrs=(), body=b"", cseq=b"1", reason=b"OK", version=b"RTSP/1.0", clen=True):
+    out = version + b" " + code + (b" " + reason if reason is not None else b"") + b"\r\n"
+    if cseq is not None:
+        out += b"CSeq: " + cseq + b"\r\n"
+    for k, v in hdrs:
+        out += k + b": " + v + b"\r\n"
+    if body and clen:
+        out += b"Content-Length: %d\r\n" % len(body)
+    return out + b"\r\n" + body
+
+
+def clt_line(stream, push=0, tcp=1, user=b"", pwd=b"", psdp=None):
+    if isinstance(stream, list):
+        stream = b"".join(stream)
+    return "c13.rtspclt %d %d %s %s %s %s" % (push, tcp, hex_tok(user), hex_tok(pwd), hex_tok(CLT_SDP if (push and psdp is None) else (psdp or b"")), hex_tok(stream))
+
+
+def clt_flow(push=0, tcp=1, getparam=False, sdp=CLT_SDP, options=None, describe=None, setups=None, play=None, tail=b""):
+    """a well-formed exchange; each step can be replaced (a bytes value, or a list for the 401-retry shapes)"""
+    o = options if options is not None else rsp(hdrs=[(b"Public", CLT_PUBLIC + (b", GET_PARAMETER" if getparam else b""))])
+    d = describe if describe is not None else (rsp() if push else rsp(hdrs=[(b"Content-Base", b"rtsp://127.0.0.1/live/x/"), (b"Content-Type", b"application/sdp")], body=sdp))
+    if setups is None:
+        tr = (lambda i: b"RTP/AVP/TCP;unicast;interleaved=%d-%d" % (2 * i, 2 * i + 1)) if tcp else (lambda i: b"RTP/AVP/UDP;unicast;client_port=1-2;server_port=%d-%d" % (6000 + 2 * i, 6001 + 2 * i))
+        setups = [rsp(hdrs=[(b"Transport", tr(i)), (b"Session", b"12345678;timeout=60")]) for i in range(2)]
+    pl = play if play is not None else rsp(hdrs=[(b"Session", b"12345678"), (b"RTP-Info", b"url=x;seq=1;rtptime=0")])
+    out = []
+    for x in [o, d] + list(setups) + [pl]:
+        out += x if isinstance(x, list) else [x]
+    return b"".join(out) + tail
+
+
+def gen_clt(tier, rng):
+    quick = tier == "quick"
+    modes = [(0, 1), (0, 0), (1, 1), (1, 0)]      # (push, tcp)
+    ilv = interleaved(0, rtp(96, 1, 0, 7, b"\x65\x01")) + interleaved(1, rtcp_sr(7, 1, 2, 3, 4, 5)) + interleaved(9, b"junk") + interleaved(2, rtp(97, 1, 0, 8, au_payload([b"\x01"])))
+    # --- well-formed exchanges in every mode, with and without GET_PARAMETER, with what may follow the handshake
+    tails = [b"", ilv, rsp(), ilv + rsp() + ilv, b"OPTIONS rtsp://x RTSP/1.0\r\nCSeq: 1\r\n\r\n", b"\r\n", b"x", b"$", b"$\x00", b"$\x00\xff\xff" + b"a" * 10, rsp(hdrs=[(b"Content-Length", b"-1")]),
+             rsp(hdrs=[(b"Content-Length", b"99999999999")]) + b"ab", ilv + b"RTSP/1.0 200 OK\r\n", b"ANNOUNCE rtsp://x RTSP/1.0\r\nContent-Length: 3\r\n\r\nabc" + ilv]
+    for push, tcp in modes:
+        for gp in (False, True):
+            for t in tails:
+                if not tcp and gp and not quick or tcp or not gp or t in (b"", ilv):
+                    yield Case(clt_line(clt_flow(push, tcp, gp, tail=t), push, tcp), cls="clt-flow")
+    # --- truncation of a whole exchange at every offset
+    for push, tcp in ((0, 1), (1, 1), (0, 0)):
+        whole = clt_flow(push, tcp, True, tail=ilv + rsp())
+        for cut in range(0, len(whole) + 1, 7 if quick else 1):
+            yield Case(clt_line(whole[:cut], push, tcp), cls="clt-trunc")
+    # --- status codes, at every step
+    codes = [b"200", b"201", b"100", b"302", b"400", b"401", b"403", b"407", b"402", b"404", b"454", b"461", b"500", b"551", b"", b"abc", b"4 01", b"0401", b"401x", b"99999999999999999999", b"-1"]
+    for code in codes:
+        bad = rsp(code=code, hdrs=[(b"Location", b"rtsp://elsewhere/x"), (b"WWW-Authenticate", b'Basic realm="r"')])
+        good_setup = rsp(hdrs=[(b"Transport", b"RTP/AVP/TCP;unicast;interleaved=0-1;server_port=1-2"), (b"Session", b"s")])
+        yield Case(clt_line(clt_flow(options=bad), user=b"u", pwd=b"p"), cls="clt-status")
+        yield Case(clt_line(clt_flow(describe=rsp(code=code, body=CLT_SDP)), user=b"u", pwd=b"p"), cls="clt-status")
+        yield Case(clt_line(clt_flow(setups=[rsp(code=code, hdrs=[(b"Session", b"s")]), good_setup, good_setup]), user=b"u"), cls="clt-status")
+        yield Case(clt_line(clt_flow(tcp=0, setups=[good_setup, rsp(code=code, hdrs=[(b"Session", b"s")]), good_setup]), tcp=0), cls="clt-status")
+        yield Case(clt_line(clt_flow(play=bad), user=b"u", pwd=b"p"), cls="clt-status")
+        yield Case(clt_line(clt_flow(push=1, describe=bad), push=1, user=b"u", pwd=b"p"), cls="clt-status")
+    for v in (b"RTSP/1.0", b"RTSP/2.0", b"HTTP/1.1", b"", b"RTSP"):
+        yield Case(clt_line(clt_flow(options=rsp(version=v))), cls="clt-status")
+    yield Case(clt_line(clt_flow(options=b"RTSP/1.0 200\r\n\r\n", describe=b"RTSP/1.0  200 OK\r\nContent-Length: %d\r\n\r\n" % len(CLT_SDP) + CLT_SDP)), cls="clt-status")
+    # the 461 fallback: tcp -> udp, udp -> tcp, refused twice, on the second track
+    r461 = rsp(code=b"461", reason=b"Unsupported Transport")
+    su = rsp(hdrs=[(b"Transport", b"RTP/AVP/UDP;unicast;client_port=1-2;server_port=7000-7001"), (b"Session", b"s1")])
+    st = rsp(hdrs=[(b"Transport", b"RTP/AVP/TCP;unicast;interleaved=0-1"), (b"Session", b"s2")])
+    for push, tcp in modes:
+        for ss in ([r461, su, su], [r461, st, st], [r461, r461], [su, r461, su], [st, r461, st, r461, st], [r461, su, r461, st], [r461, rsp(code=b"401"), rsp(code=b"401")]):
+            yield Case(clt_line(clt_flow(push, tcp, setups=ss, tail=ilv), push, tcp), cls="clt-461")
+    # --- Public
+    for v in (None, b"", b"GET_PARAMETER", b"get_parameter", b"OPTIONS,GET_PARAMETER,PLAY", b"XGET_PARAMETERX", b"GET_PARAMETE", b"GET PARAMETER", b"OPTIONS"):
+        hs = [] if v is None else [(b"Public", v)]
+        for tcp in (1, 0):
+            yield Case(clt_line(clt_flow(tcp=tcp, options=rsp(hdrs=hs), tail=ilv + rsp() + b"junk"), tcp=tcp), cls="clt-public")
+    yield Case(clt_line(clt_flow(options=rsp(hdrs=[(b"Public", b"OPTIONS"), (b"public", b"GET_PARAMETER")]), tail=rsp())), cls="clt-public")
+    yield Case(clt_line(clt_flow(options=rsp(hdrs=[(b"PUBLIC", b"x"), (b"Public", b"GET_PARAMETER")]), tail=rsp())), cls="clt-public")
+    # --- Session: id and timeout, every numeric extreme; with and without GET_PARAMETER (the keep-alive ticker)
+    sess = [None, b"", b"id", b";", b";timeout=60", b"id;", b"id;timeout", b"id;timeout=", b"id; timeout=60", b"id;TIMEOUT=60", b"id;x=1;timeout=60;y", b"a;b;c", b"id;timeout=60;timeout=0", b"i d", b"x" * 5000,
+            b"id\ttimeout=5"] + [b"id;timeout=" + n for n in NUM_EXTREMES]
+    for v in sess:
+        hs = [(b"Transport", b"RTP/AVP/TCP;unicast;interleaved=0-1")] + ([] if v is None else [(b"Session", v)])
+        for gp in (True, False):
+            yield Case(clt_line(clt_flow(getparam=gp, setups=[rsp(hdrs=hs), rsp(hdrs=hs)], tail=ilv)), cls="clt-session")
+        yield Case(clt_line(clt_flow(push=1, getparam=True, setups=[rsp(hdrs=hs), rsp(hdrs=[(b"Session", b"other")])], tail=rsp()), push=1), cls="clt-session")
+    yield Case(clt_line(clt_flow(getparam=True, setups=[rsp(hdrs=[(b"Session", b"a;timeout=9223372037"), (b"session", b"b;timeout=1")])] * 2)), cls="clt-session")
+    # --- Transport of the SETUP answer: server_port with every numeric extreme, interleaved, malformed
+    trs = [None, b"", b"server_port", b"server_port=", b"server_port=5", b"server_port=5-6-7", b"server_port=a-b", b"server_port=-", b"server_port=5-6;server_port=7-8", b"server_port=5-6=7",
+           b"RTP/AVP;unicast;client_port=1-2;server_port=0-0;ssrc=1", b"interleaved=0-1", b"interleaved=9-9", b"interleaved=255-256", b"xserver_port=1-2", b" server_port=1-2", b"source=1.2.3.4;server_port=70000-65536"]
+    trs += [b"server_port=" + n + b"-" + n for n in NUM_EXTREMES] + [b"server_port=1-" + n for n in NUM_EXTREMES[:12]]
+    for v in trs:
+        hs = [(b"Session", b"s")] + ([] if v is None else [(b"Transport", v)])
+        for push, tcp in ((0, 0), (1, 0)):
+            yield Case(clt_line(clt_flow(push, tcp, setups=[rsp(hdrs=hs), rsp(hdrs=hs)]), push, tcp), cls="clt-transport")
+    for v in trs[1:17]:
+        hs = [(b"Session", b"s"), (b"Transport", v)]
+        yield Case(clt_line(clt_flow(setups=[rsp(hdrs=hs), rsp(hdrs=hs)])), cls="clt-transport")
+    # --- CSeq of the answers (not looked at), numeric extremes
+    for n in NUM_EXTREMES + [None]:
+        yield Case(clt_line(b"".join(rsp(cseq=n, hdrs=h, body=b) for h, b in (([], b""), ([], CLT_SDP), ([(b"Session", b"s")], b""), ([(b"Session", b"s")], b""), ([], b"")))), cls="clt-cseq")
+    # --- 401 challenges of every shape, at every step, with and without credentials
+    challenges = [b'Basic realm="lal"', b"Basic", b"Basic realm=lal", b"basic realm=\"x\"", b'BasicX', b'Digest realm="lal", nonce="abc"', b'Digest realm="lal",nonce="abc",algorithm="MD5"',
+                  b'Digest realm="lal", nonce="abc", algorithm="md5"', b'Digest realm="lal", nonce="abc", algorithm="SHA-256"', b'Digest realm="lal", nonce="abc", algorithm=MD5', b'Digest nonce="abc"',
+                  b'Digest realm="lal"', b"Digest", b"Digest ", b'Digest realm="lal', b'Digest realm="", nonce=""', b'Digest realm=lal, nonce=abc', b'Digest realm="a\\"b", nonce="c,d"',
+                  b'Digest realm="r1", realm="r2", nonce="n1", nonce="n2"', b'Digest xrealm="x", realm="y", nonce="n"', b'Digest realm="lal", nonce="' + b"n" * 3000 + b'"', b'DigestX realm="a"',
+                  b'digest realm="a", nonce="b"', b'  Digest realm="sp", nonce="sp"  ', b'\tDigest realm="tab", nonce="n"', b'WWW-Authenticate Digest realm="in", nonce="n"',
+                  b'WWW-AuthenticateDigest realm="glued", nonce="n"', b'WWW-Authenticate: Basic realm="x"', b"", b"Negotiate", b'Digest realm="lal", nonce="abc", qop="auth", opaque="o", stale="true"',
+                  b'Digest realm="\xe4\xb8\xad", nonce="\xff"', b'Digest realm="a"b", nonce="c"']
+    for ch in challenges:
+        c401 = rsp(code=b"401", reason=b"Unauthorized", hdrs=[(b"WWW-Authenticate", ch)])
+        for user, pwd in ((b"u", b"p"), (b"", b""), (b"admin", b"")):
+            yield Case(clt_line([c401, clt_flow()], user=user, pwd=pwd), cls="clt-401")
+        yield Case(clt_line(clt_flow(describe=[c401, rsp(body=CLT_SDP)]), user=b"u", pwd=b"p"), cls="clt-401")
+        yield Case(clt_line(clt_flow(push=1, tcp=1, setups=[[c401, st], st], play=[c401, rsp()]), push=1, user=b"u", pwd=b"p"), cls="clt-401")
+    b401, d401 = rsp(code=b"401", hdrs=[(b"WWW-Authenticate", b'Basic realm="r"')]), rsp(code=b"401", hdrs=[(b"WWW-Authenticate", b'Digest realm="r", nonce="n"')])
+    for a in ([b401, b401], [d401, d401], [b401, d401], [rsp(code=b"401"), rsp(code=b"401")], [rsp(code=b"401"), rsp()], [rsp(code=b"401", hdrs=[(b"WWW-Authenticate", b"Basic"), (b"WWW-Authenticate", b'Digest realm="r", nonce="n"')]), rsp()],
+              [rsp(code=b"401", hdrs=[(b"www-authenticate", b'Digest realm="r", nonce="n"'), (b"WWW-Authenticate", b"Basic")]), rsp()]):
+        yield Case(clt_line(clt_flow(options=a), user=b"u", pwd=b"p"), cls="clt-401")
+        yield Case(clt_line(clt_flow(options=[d401, rsp()], describe=a + [rsp(body=CLT_SDP)]), user=b"u", pwd=b"p"), cls="clt-401")
+    # --- DESCRIBE body: Content-Length forms, SDP variants, Content-Base
+    for v in CL_VALUES[:24]:
+        yield Case(clt_line(clt_flow(describe=b"RTSP/1.0 200 OK\r\nCSeq: 2\r\nContent-Length: " + v + b"\r\n\r\n" + CLT_SDP)), cls="clt-describe")
+    sdps = [CLT_SDP, CMD_SDP_AUDIO, CMD_SDP_BAD, b"v=0\r\n", CLT_SDP.replace(b"streamid=0", b"rtsp://10.0.0.1/x/track1"), CLT_SDP.replace(b"a=control:streamid=0\r\n", b""), CLT_SDP.replace(b"a=control:streamid=1", b"a=control:"),
+            CLT_SDP.replace(b"a=control:streamid=1", b"a=control"), CLT_SDP.replace(b"streamid=1", b"a b\tc"), CLT_SDP.replace(b"streamid=1", b"streamid=0"), b"a=control:*\r\n" + CLT_SDP, CLT_SDP.replace(b"\r\n", b"\n"),
+            CLT_SDP + b"m=video 0 RTP/AVP 98\r\na=control:third\r\n", CLT_SDP.replace(b"H264/90000", b"H264"), CLT_SDP.replace(b"streamid=1", b"rtsp://"), CLT_SDP.replace(b"streamid=0", b"x" * 3000)]
+    for sd in sdps:
+        for push, tcp in modes:
+            if push:
+                yield Case(clt_line(clt_flow(1, tcp, tail=ilv), 1, tcp, psdp=sd), cls="clt-sdp")
+            else:
+                yield Case(clt_line(clt_flow(0, tcp, sdp=sd, tail=ilv), 0, tcp), cls="clt-sdp")
+    for cb in (b"", b"rtsp://other/", b"x" * 2000, b"\xff"):
+        yield Case(clt_line(clt_flow(describe=rsp(hdrs=[(b"Content-Base", cb), (b"content-base", b"rtsp://second/")], body=CLT_SDP))), cls="clt-describe")
+    # --- things between the answers: empty lines, interleaved frames, requests of the server, answers glued / doubled
+    junk = [b"\r\n", b"\n", ilv, interleaved(0, b""), b"$", b"OPTIONS rtsp://x RTSP/1.0\r\nCSeq: 9\r\n\r\n", rsp(code=b"100", reason=b"Continue"), b"\x00", b"RTSP/1.0 200 OK\r\n", interleaved(0, b"\r\n\r\n"), interleaved(36, b"A B C\r\n\r\n")]
+    steps = [rsp(hdrs=[(b"Public", b"GET_PARAMETER")]), rsp(body=CLT_SDP), st, st, rsp()]
+    for j in junk:
+        for pos in range(len(steps) + 1):
+            yield Case(clt_line(b"".join(steps[:pos]) + j + b"".join(steps[pos:]) + ilv), cls="clt-between")
+    # --- mutation stream
+    seps = [b"\r\n", b"\n", b":", b" ", b";", b"=", b"-", b"$", b'"', b",", b"401", b"461", b"timeout=", b"server_port=", b"GET_PARAMETER", b"9223372036854775807", b"99999999999999999999"]
+    for _ in range(500 if quick else 60000):
+        push, tcp = rng.choice(modes) if rng.random() < 0.5 else (0, 1)
+        gp = rng.random() < 0.5
+        if not tcp and gp and quick:
+            gp = False
+        parts = [rsp(hdrs=[(b"Public", CLT_PUBLIC + (b", GET_PARAMETER" if gp else b""))]), rsp() if push else rsp(body=CLT_SDP), st if tcp else su, st if tcp else su, rsp(hdrs=[(b"Session", b"s")]), ilv, rsp()]
+        if rng.random() < 0.3:
+            parts.insert(rng.randrange(4), rng.choice([b401, d401, r461]))
+        k = rng.randrange(len(parts))
+        parts[k] = text_mutate(rng, parts[k], seps)
+        yield Case(clt_line(parts, push, tcp, user=rng.choice([b"", b"u"]), pwd=rng.choice([b"", b"p"])), cls="clt-mutation")
+
+
 def text_mutate(rng, b, seps):
     b = bytearray(b)
     k = rng.randrange(6)
@@ -1486,7 +1646,7 @@ def gen_sessions(tier, rng):
 
 
 def gen_cases(tier, rng):
-    for g in (gen_rtp, gen_rtcp, gen_insess, gen_udpsess, gen_msg, gen_cmd, gen_ilv, gen_ws, gen_ps, gen_rtmpc, gen_text, gen_sessions):
+    for g in (gen_rtp, gen_rtcp, gen_insess, gen_udpsess, gen_msg, gen_cmd, gen_clt, gen_ilv, gen_ws, gen_ps, gen_rtmpc, gen_text, gen_sessions):
         for c in g(tier, rng):
             yield c
 
@@ -1531,10 +1691,16 @@ def nontrivial(c, out):
         o = out.split(" ")
         evs = o[1] if len(o) > 1 else ""
         return "%s|%s|%s|k%d|e%d|av%d" % (c.cls, f[1], outcome_class(out), min(evs.count("k"), 6), min(evs.count("e"), 4), min(evs.count("av:"), 6))
+    if f[0] == "c13.rtspclt":
+        o = out.split(" ")
+        qs = o[1].split(",") if len(o) > 3 and o[1] != "-" else []
+        meth = "".join(bytes.fromhex(q.split(":")[1]).decode("latin1")[:1] if len(q.split(":")) > 1 and q.split(":")[1] != "-" else "?" for q in qs)
+        authz = sum(1 for q in qs if "417574686f72697a6174696f6e" in q)
+        return "%s|%s%s|%s|%s|a%d|%s" % (c.cls, f[1], f[2], outcome_class(out), meth[:12], min(authz, 3), o[-1] if len(o) > 3 else "")
     if f[0] == "c13.rtspcmd":
         o = out.split(" ")
         evs = o[1].split(";") if len(o) > 2 and o[1] != "-" else []
-        shape = ",".join(e if e.startswith("cb:") else e.split(":")[2][:12] for e in evs[:8])
+        shape = ",".join(e if e.startswith("cb:") else e.split(":")[0] + e.split(":")[2][:12] for e in evs[:8])
         return "%s|%s|%s|%s|%s|%s" % (c.cls, "".join(f[1:3]) + f[4] + ("s" if len(f[3]) > 6 else f[3][:2]), outcome_class(out), shape, len(evs), o[-2].split(":")[0] if len(o) > 3 else "")
     if f[0] in ("c13x.udpsess", "c13x.pulludp"):
         return "%s|%s/%s|%s|%d" % (f[0], f[1], f[4], outcome_class(out), min(f[7].count(","), 8))
@@ -1554,6 +1720,13 @@ def oracle(c, out):
             return (out == "err", "malformed RTP packet must be refused with an error, got: " + out[:80])
         o = out.split(" ")
         return (o[0] == "ok" and tok_bytes(o[-1]) == want, "well-formed RTP packet: payload differs from the RFC 3550 reference")
+    if f[0] == "c13.rtspclt":
+        # the upstream has said all it will say and closed its side: the session has to be over (Start failed, or the
+        # session reported as ended) unless it waits for the GET_PARAMETER keep-alive, which takes a server that announced it
+        # (a header value may be glued from a line without colon: line breaks and blanks are ignored in the search)
+        if out.endswith(" running") and b"GET_PARAMETER" not in tok_bytes(f[6]).replace(b"\r", b"").replace(b"\n", b"").replace(b" ", b""):
+            return (False, "the rtsp client session is neither over nor running a keep-alive: its read loop spins or its end was never reported")
+        return (True, "")
     if f[0] == "c13.rtspcmd":
         # closing that session only: nothing the requests made lal open may outlive the session
         leak = out.rsplit("leak:", 1)
@@ -1582,6 +1755,18 @@ def neighbors(c, rng):
                 yield "c13.ps %s %s" % (f[1], ",".join(items[:k] + [hex_tok(b[:t])]))
             for _ in range(10):
                 yield "c13.ps %s %s" % (f[1], ",".join(items[:k] + [hex_tok(mutate(rng, b, 12))] + items[k + 1:]))
+        return
+    if f[0] == "c13.rtspclt":
+        b = tok_bytes(f[6])
+        if len(b) > 6000:
+            return
+        import re
+        starts = [m.start() for m in re.finditer(rb"RTSP/1.0 ", b)] + [len(b)]
+        for i in range(len(starts) - 1):
+            yield " ".join(f[:6]) + " " + hex_tok(b[:starts[i]])
+            yield " ".join(f[:6]) + " " + hex_tok(b[:starts[i]] + b[starts[i + 1]:])
+        for _ in range(30):
+            yield " ".join(f[:6]) + " " + hex_tok(text_mutate(rng, b, [b"\r\n", b";", b"=", b"-", b"401", b"461"]))
         return
     if f[0] == "c13.rtspcmd":
         if f[1] != "0":
